@@ -673,9 +673,15 @@ OFFSET = [('degC*m/m', '__mul__'), ('m*degC/m', '__mul__'), ('degC/m*m', '__div_
           ('degF*hr/hr', '__mul__')]
 
 
-@rule('C06.offset', floor=7)
+SCALED_OFFSET = [('2*degC', 'degC', Fr(2), '__mul__'), ('degF*2', 'degF', Fr(2), '__mul__'),
+                 ('0.5*degF', 'degF', Fr(1, 2), '__mul__'), ('kdegC', 'degC', Fr(1000), '__mul__'),
+                 ('mdegF', 'degF', Fr(1, 1000), '__mul__'), ('dadegC', 'degC', Fr(10), '__mul__'),
+                 ('degC/2', 'degC', Fr(1, 2), '__div__'), ('degF/0.25', 'degF', Fr(4), '__div__')]
+
+
+@rule('C06.offset', floor=15)
 def offset(repo, out):
-    """An expression that mentions an offset unit is refused, or simplify_unit keeps its factor, powers and offset."""
+    """An expression mentioning an offset unit is refused, or keeps offset under simplify_unit and x[p*U] == p*x[U]."""
     lab = Lab(repo)
     for e, op in OFFSET:
         fn = lab.fn('PhysicalUnit.' + op)
@@ -689,6 +695,31 @@ def offset(repo, out):
                         key=f'offset-operand:{e}')
             else:
                 out.ok(fn, fn.node, f'{e!r} accepted and simplify_unit is faithful ({detail!r})')
+    # number * offset unit, prefixed offset unit, offset unit / number: refused, or x [p*U] == p*x [U]
+    for e, base, p, op in SCALED_OFFSET:
+        lab = Lab(repo)
+        fn = lab.fn('PhysicalUnit.' + op)
+        with guarded(out, fn):
+            st, detail = _simplify_check(lab, e)
+            if st == 'refused':
+                out.ok(fn, fn.node, f'{e!r} is refused')
+                continue
+            why = detail if st.startswith('diff') else None
+            for x in AFF_X:
+                if why:
+                    break
+                k, v = attempt(lambda: lab.call('convert_units', Fl(x), e, base))
+                if k == 'raise':
+                    why = f'{e!r} is accepted but convert_units({x}, {e!r}, {base!r}) raises {v}'
+                elif frac(v) != p * x:
+                    why = (f'{e!r} is accepted but convert_units({x}, {e!r}, {base!r}) = {frac(v)}; {x} [{e}] is '
+                           f'{p}*{x} = {p * x} [{base}]: the zero shift of {base} must be divided by the number, '
+                           f'the unit got {fmt(utuple(lab.find(e)))}')
+            if why:
+                out.bad(fn, fn.node, why + f'  [PhysicalUnit.{op} scales an offset unit by a number]',
+                        key=f'offset-scaled:{e}')
+            else:
+                out.ok(fn, fn.node, f'{e!r} accepted with the zero shift rescaled: x [{e}] == {p}*x [{base}]')
 
 
 # ================================================================================ C06.define
@@ -876,6 +907,83 @@ def library(repo, out):
                 else:
                     out.bad(f_upd, f_upd.node, f'convert_units({x}, {name!r}, {base[0]!r}) gives {v}; the library '
                             f'definition gives {(x + want.d) * want.f}', key=f'offset-unit:{name}')
+
+
+# ================================================================================ C06.reload
+def _variant_library(cp):
+    """A second library: same file with one linear unit rescaled and one offset unit's zero moved."""
+    cp2 = configparser.RawConfigParser()
+    cp2.optionxform = str
+    cp2.read_dict({sec: dict(cp.items(sec)) for sec in cp.sections()})
+    lin = off = None
+    rows = list(cp.items('units'))
+    pref = {'ft': 0, 'degF': 0}
+    for name, text in sorted(rows, key=lambda r: pref.get(r[0], 1)):
+        data = [t.strip() for t in text.split(',')]
+        if len(data) == 2 and lin is None and data[0] != name:
+            lin = name
+            cp2.set('units', name, f'7*({data[0]}), {data[1]}')
+        elif len(data) == 4 and off is None:
+            off = name
+            cp2.set('units', name, f'{data[0]}, {data[1]}, {float(data[2]) + 40.0!r}, {data[3]}')
+    if lin is None or off is None:
+        raise AnalysisError('unit_library.ini has no linear/offset unit to vary')
+    return cp2, lin, off
+
+
+@rule('C06.reload', floor=5)
+def reload_(repo, out):
+    """After import_library every expression is resolved against the new library (no stale cached units)."""
+    cp1 = read_ini(repo)
+    cp2, lin, off = _variant_library(cp1)
+    pre2, bases2, table2, problems2 = spec_library(cp2)
+    fn = repo.func(UNITS, 'import_library')
+    stage = {'cp': cp1}
+
+    def factory(interp, *a):
+        cp = stage['cp']
+        ns = _IniParser()
+        ns.read_file = native(lambda interp, fp: None)
+        ns.readfp = ns.read_file
+        ns.items = native(lambda interp, sec: [(k, v) for k, v in cp.items(sec)])
+        ns.set = native(lambda interp, *a: None)
+        return ns
+    it = Interp(repo.module(UNITS), {'ConfigParser': native(factory), 'eval': model_eval, 're': re, '_UNIT_CACHE': {},
+                                      'sys': NS(version_info=(3, 12)),
+                                      'get_close_matches': native(lambda interp, *a, **k: [])})
+    it.MAX_STEPS = 6000000
+    b0 = bases2[0]
+    probes = [lin, off, f'{lin}/{b0}', f'{lin}**2', f'{lin}*{b0}/{b0}', f'k{lin}']
+    probes = [e for e in probes if e not in problems2]
+    with guarded(out, fn):
+        k, v = attempt(lambda: it.call_func('import_library', None))
+        if k == 'raise':
+            out.bad(fn, fn.node, f'import_library raises {v} on the shipped library', key='import-raises')
+            return
+        seen = {}
+        for e in probes:                      # ordinary use of the first library: fills the expression cache
+            k, u = attempt(lambda: it.call_func('_find_unit', e, True))
+            seen[e] = utuple(u) if k == 'ok' and u is not None else None
+        stage['cp'] = cp2
+        k, v = attempt(lambda: it.call_func('import_library', None))
+        if k == 'raise':
+            out.bad(fn, fn.node, f'a second import_library (one unit rescaled) raises {v}', key='reimport-raises')
+            return
+        for e in probes:
+            try:
+                want = spec_eval(e, table2, pre2)
+            except SpecReject:
+                continue
+            k, u = attempt(lambda: it.call_func('_find_unit', e, True))
+            got = utuple(u) if k == 'ok' and u is not None else None
+            if got != want.key():
+                stale = ' (that is the unit of the previously loaded library)' if got == seen.get(e) else ''
+                out.bad(fn, fn.node, f'after import_library of a library that defines {lin!r} and {off!r} differently, '
+                        f'{e!r} resolves to {fmt(got)}{stale}; the loaded library implies {fmt(want.key())}: '
+                        'cached expressions of the replaced library survive the import',
+                        key=f'stale-after-import:{e.replace(lin, "LIN").replace(off, "OFF")}')
+            else:
+                out.ok(fn, e, f'{e!r} -> {fmt(got)} in the newly imported library')
 
 
 # ================================================================================ C06.proto (thorough)
@@ -1089,6 +1197,18 @@ selftest(
     Mutant('offset-prefix-rdiv-unguarded', _U,
            "        if self._offset != 0:\n            raise TypeError(f\"Can't divide by unit",
            "        if False:\n            raise TypeError(f\"Can't divide by unit", 'C06.offset'),
+    # round-2 seed 1: offset guard only on the unit*unit branch -> number*offset-unit multiplies the zero shift
+    Mutant('offset-seed2-scalar-branch-unguarded', _U,
+           "        if self._offset != 0 or (isinstance(other, PhysicalUnit) and\n                                 other._offset != 0):\n            raise TypeError(f\"Can't multiply units: either '{self.name()}' or '{other.name()}' \"\n                            \"has a non-zero offset.\")\n        if isinstance(other, PhysicalUnit):\n",
+           "        if isinstance(other, PhysicalUnit):\n            if self._offset != 0 or other._offset != 0:\n                raise TypeError(f\"Can't multiply units: either '{self.name()}' or \"\n                                f\"'{other.name()}' has a non-zero offset.\")\n",
+           'C06.offset'),
+    Mutant('offset-scalar-div-unguarded', _U,
+           "        if self._offset != 0 or (isinstance(other, PhysicalUnit) and\n                                 other._offset != 0):\n            raise TypeError(f\"Can't divide units",
+           "        if isinstance(other, PhysicalUnit) and (self._offset != 0 or other._offset != 0):\n            raise TypeError(f\"Can't divide units",
+           'C06.offset'),
+    # round-2 seed 3: import_library rebinds a local instead of the module-level expression cache
+    Mutant('reload-seed2-cache-not-global', _U, "    global _UNIT_CACHE\n    _UNIT_CACHE = {}\n", "    _UNIT_CACHE = {}\n", 'C06.reload'),
+    Mutant('reload-cache-never-reset', _U, "    global _UNIT_CACHE\n    _UNIT_CACHE = {}\n", "", 'C06.reload'),
     # ---- define / library
     Mutant('define-offset-factor-div', _U, "    unit = PhysicalUnit(baseunit._names, baseunit._factor * factor,",
            "    unit = PhysicalUnit(baseunit._names, baseunit._factor / factor,", ['C06.define', 'C06.library']),
@@ -1137,5 +1257,9 @@ selftest(
     Twin('twin-compat-symmetric', _U, "    return old_unit.is_compatible(new_unit)", "    return new_unit.is_compatible(old_unit)"),
     Twin('twin-rdiv-reciprocal', _U, "                            float(other) / self._factor,", "                            float(other) * (1.0 / self._factor),"),
     Twin('twin-early-identity', _U, "        factor = self._factor / other._factor\n", "        if self is other:\n            return (1.0, 0.0)\n        factor = self._factor / other._factor\n"),
+    Twin('twin-reload-cache-cleared-in-place', _U, "    global _UNIT_CACHE\n    _UNIT_CACHE = {}\n", "    _UNIT_CACHE.clear()\n"),
+    Twin('twin-mul-guard-split', _U,
+         "        if self._offset != 0 or (isinstance(other, PhysicalUnit) and\n                                 other._offset != 0):\n            raise TypeError(f\"Can't multiply units: either '{self.name()}' or '{other.name()}' \"\n                            \"has a non-zero offset.\")\n",
+         "        if self._offset != 0:\n            raise TypeError(f\"Can't multiply units: '{self.name()}' has a non-zero offset.\")\n        if isinstance(other, PhysicalUnit) and other._offset != 0:\n            raise TypeError(f\"Can't multiply units: '{other.name()}' has a non-zero offset.\")\n"),
     Twin('twin-proto-commuted', 'openmdao/core/conn_graph.py', "                return (val + offset) * scale", "                return scale * (offset + val)"),
 )
